@@ -160,6 +160,24 @@ fn lift_limit_ladder(rep: &Report) -> Census {
             }
         }
     }
+    // the opcode budget against a count made from first principles (1-of-20 multisigs in every child
+    // position of every combinator, padded across the limit): a script with a path above 201 counted
+    // opcodes has no spendable policy on that path
+    for (name, t, total) in crate::sat::budget_ladder() {
+        let env = PkEnv { form: KeyForm::Compressed };
+        if let Ok(ms) = build::<bitcoin::PublicKey, miniscript::Segwitv0>(&t, &env) {
+            *cen.entry("lift_budget_terms").or_insert(0) += 1;
+            let got_err = ms.lift().is_err();
+            if got_err != (total > 201) {
+                rep.violation(Violation {
+                    key: format!("C07|lift-budget|{}", name),
+                    class: format!("lift-of-over-budget-script-{}", name.split('@').next().unwrap_or("")),
+                    what: format!("lift() {} for a script whose worst path counts {} opcodes (limit 201): {}", if got_err { "fails" } else { "succeeds" }, total, name),
+                    case: json!({"term": name, "worst_path_opcodes": total}),
+                });
+            }
+        }
+    }
     cen
 }
 
